@@ -178,8 +178,8 @@ func init() {
 		buf := a[1].(SliceV)
 		n := buf.Len
 		c := it.C
-		ax := c.Abs(x)
-		if it.Branch(c.Le(it.pow2(8*n), ax)) {
+		ax := it.absT(x)
+		if !(n >= 32 && it.isLt256(ax)) && it.Branch(c.Le(it.pow2(8*n), ax)) {
 			it.goPanicStr("fillbytes", "math/big: buffer too small to fit value")
 		}
 		bs := it.intToBytes(ax, n)
